@@ -1,5 +1,6 @@
 import GIVerif.Model.EnumConst
 import Mathlib.Data.List.Basic
+import Batteries.Data.List.Perm
 
 namespace GIVerif.EnumConst
 open GIVerif.Py
@@ -806,17 +807,165 @@ theorem constUnaliased_direct {idp : List Str} {nodes : List Node} {t : Str} {x 
   unfold constUnaliased
   rw [hn, createTypeFromCType_of_lookup h]
 
-/-- … and through one typedef whose target is a type name of `type_names` -/
+theorem lookupNode_mem {idp : List Str} {nodes : List Node} {t : Str} {nd : Node}
+    (h : lookupNode idp nodes t = some nd) : nd ∈ nodes := by
+  simp only [lookupNode] at h
+  cases hp : firstPrefixMatch idp (stripStars t) with
+  | none => rw [hp] at h; cases h
+  | some rest =>
+    rw [hp] at h
+    cases hf : nodes.find? (fun n => n.name = rest) with
+    | some n =>
+      simp only [hf, Option.some.injEq] at h
+      subst h
+      exact List.mem_of_find?_eq_some hf
+    | none =>
+      simp only [hf] at h
+      exact List.mem_of_find?_eq_some h
+
+/-- the C type name `t` names a typedef of the namespace, and following the typedefs
+    (`path`, in order) ends at `target`, a key of `ast.type_names` for the fundamental type
+    `f`; the intermediate targets are not spellings of a fundamental type -/
+inductive ChainTo (idp : List Str) (nodes : List Node) : Str → Str → List Node → Prop where
+  | last {t n c target f ct : Str} : lookupNode idp nodes t = some (.alias n c target) →
+      lookupTypeName target = some (f, ct) → ChainTo idp nodes t f [.alias n c target]
+  | step {t n c target f : Str} {p : List Node} : lookupNode idp nodes t = some (.alias n c target) →
+      createTypeFromCType target = none → ChainTo idp nodes target f p →
+      ChainTo idp nodes t f (.alias n c target :: p)
+
+theorem ChainTo.head {idp : List Str} {nodes : List Node} {t f : Str} {p : List Node}
+    (h : ChainTo idp nodes t f p) : ∃ x q, p = x :: q ∧ lookupNode idp nodes t = some x := by
+  cases h with
+  | last h1 _ => exact ⟨_, _, rfl, h1⟩
+  | step h1 _ _ => exact ⟨_, _, rfl, h1⟩
+
+theorem ChainTo.subset {idp : List Str} {nodes : List Node} {t f : Str} {p : List Node}
+    (h : ChainTo idp nodes t f p) : ∀ x ∈ p, x ∈ nodes := by
+  induction h with
+  | last h1 _ =>
+    intro x hx
+    simp only [List.mem_singleton] at hx
+    subst hx
+    exact lookupNode_mem h1
+  | step h1 _ _ ih =>
+    intro x hx
+    rcases List.mem_cons.mp hx with rfl | hx
+    · exact lookupNode_mem h1
+    · exact ih x hx
+
+/-- the typedefs a type name goes through are determined by the namespace -/
+theorem ChainTo.det {idp : List Str} {nodes : List Node} {t f : Str} {p : List Node}
+    (h : ChainTo idp nodes t f p) : ∀ {f' : Str} {p' : List Node}, ChainTo idp nodes t f' p' → p = p' := by
+  induction h with
+  | last h1 h2 =>
+    intro f' p' h'
+    cases h' with
+    | last h1' _ =>
+      rw [h1] at h1'
+      cases h1'
+      rfl
+    | step h1' h2' _ =>
+      rw [h1] at h1'
+      cases h1'
+      rw [createTypeFromCType_of_lookup h2] at h2'
+      cases h2'
+  | step h1 h2 _ ih =>
+    intro f' p' h'
+    cases h' with
+    | last h1' h2' =>
+      rw [h1] at h1'
+      cases h1'
+      rw [createTypeFromCType_of_lookup h2'] at h2
+      cases h2
+    | step h1' _ h3' =>
+      rw [h1] at h1'
+      cases h1'
+      rw [ih h3']
+
+/-- every typedef on the way starts a chain of its own, a suffix of the whole -/
+theorem ChainTo.suffix {idp : List Str} {nodes : List Node} {t f : Str} {p : List Node}
+    (h : ChainTo idp nodes t f p) : ∀ x ∈ p, ∃ t' q, ChainTo idp nodes t' f (x :: q) ∧ (x :: q) <:+ p := by
+  induction h with
+  | @last t n c target f ct h1 h2 =>
+    intro x hx
+    simp only [List.mem_singleton] at hx
+    subst hx
+    exact ⟨t, [], .last h1 h2, List.suffix_refl _⟩
+  | @step t n c target f p h1 h2 h3 ih =>
+    intro x hx
+    rcases List.mem_cons.mp hx with rfl | hx
+    · exact ⟨t, p, .step h1 h2 h3, List.suffix_refl _⟩
+    · obtain ⟨t', q, hq, hs⟩ := ih x hx
+      exact ⟨t', q, hq, hs.trans (List.suffix_cons _ _)⟩
+
+/-- a finite chain of typedefs never comes back to a typedef it went through -/
+theorem ChainTo.nodup {idp : List Str} {nodes : List Node} {t f : Str} {p : List Node}
+    (h : ChainTo idp nodes t f p) : p.Nodup := by
+  induction h with
+  | last _ _ => simp
+  | @step t n c target f p h1 h2 h3 ih =>
+    refine List.nodup_cons.mpr ⟨?_, ih⟩
+    intro hmem
+    obtain ⟨t', q, hq, hs⟩ := h3.suffix _ hmem
+    cases hq with
+    | last _ h2' =>
+      rw [createTypeFromCType_of_lookup h2'] at h2
+      cases h2
+    | step _ _ h3' =>
+      have e := h3'.det h3
+      subst e
+      have := hs.length_le
+      simp only [List.length_cons] at this
+      omega
+
+theorem ChainTo.length_le {idp : List Str} {nodes : List Node} {t f : Str} {p : List Node}
+    (h : ChainTo idp nodes t f p) : p.length ≤ nodes.length :=
+  (List.subperm_of_subset h.nodup (fun x hx => h.subset x hx)).length_le
+
+/-- `resolve_aliases` follows every finite chain of typedefs to its end -/
+theorem resolveAliases_of_chain {idp : List Str} {nodes : List Node} {t f : Str} {p : List Node}
+    (h : ChainTo idp nodes t f p) : ∀ (fuel : Nat) (seen : List Node), p.length ≤ fuel →
+      (∀ x ∈ p, x ∉ seen) → p.Nodup → ∀ nd, lookupNode idp nodes t = some nd →
+      resolveAliases idp nodes fuel seen nd = some f := by
+  induction h with
+  | @last t n c target f ct h1 h2 =>
+    intro fuel seen hfuel hseen _ nd hnd
+    rw [h1] at hnd
+    cases hnd
+    obtain ⟨k, rfl⟩ : ∃ k, fuel = k + 1 := ⟨fuel - 1, by simp at hfuel; omega⟩
+    have hns : Node.alias n c target ∉ seen := hseen _ (by simp)
+    obtain ⟨_, _, _, h4⟩ := fundamentals_closed (f, ct) (lookupTypeName_mem h2)
+    simp only [resolveAliases, hns, if_false, createTypeFromCType_of_lookup h2]
+    exact h4
+  | @step t n c target f p h1 h2 h3 ih =>
+    intro fuel seen hfuel hseen hnd nd hl
+    rw [h1] at hl
+    cases hl
+    obtain ⟨k, rfl⟩ : ∃ k, fuel = k + 1 := ⟨fuel - 1, by simp at hfuel; omega⟩
+    have hns : Node.alias n c target ∉ seen := hseen _ (by simp)
+    obtain ⟨x, q, hp, hx⟩ := h3.head
+    obtain ⟨hnotin, hnd'⟩ := List.nodup_cons.mp hnd
+    simp only [resolveAliases, hns, if_false, h2, hx]
+    refine ih k _ (by simp at hfuel; omega) ?_ hnd' x hx
+    intro y hy hmem
+    rcases List.mem_cons.mp hmem with rfl | hmem
+    · exact hnotin hy
+    · exact hseen y (List.mem_cons_of_mem _ hy) hmem
+
+/-- … so `unaliased` is the fundamental type at the end of the chain, whatever its length -/
+theorem constUnaliased_of_chain {idp : List Str} {nodes : List Node} {t f : Str} {p : List Node}
+    (h : ChainTo idp nodes t f p) : constUnaliased idp nodes t = some f := by
+  obtain ⟨x, q, _, hx⟩ := h.head
+  unfold constUnaliased
+  rw [hx]
+  simp only [resolveAliases_of_chain h (nodes.length + 1) [] (by have := h.length_le; omega)
+    (fun _ _ => List.not_mem_nil) h.nodup x hx]
+
+/-- one typedef whose target is a type name of `type_names` -/
 theorem constUnaliased_alias {idp : List Str} {nodes : List Node} {t n c target : Str} {x : Str × Str}
     (hn : lookupNode idp nodes t = some (.alias n c target)) (h : lookupTypeName target = some x) :
-    constUnaliased idp nodes t = some x.1 := by
-  obtain ⟨_, _, _, h4⟩ := fundamentals_closed x (lookupTypeName_mem h)
-  unfold constUnaliased
-  rw [hn]
-  simp only [createTypeFromCType_of_lookup h]
-  obtain ⟨r, hr, hr1⟩ := Option.map_eq_some_iff.mp h4
-  rw [hr]
-  simp [hr1]
+    constUnaliased idp nodes t = some x.1 :=
+  constUnaliased_of_chain (.last (f := x.1) (ct := x.2) hn h)
 
 /-- the fundamentals that the chain on `unaliased` mentions -/
 def wrapDomain : List Str :=
@@ -974,33 +1123,23 @@ def unsignedWidths : List (Str × Nat) :=
 
 /-- the unsigned types whose width depends on the platform ABI -/
 def platformUnsigned : List Str :=
-  [['g','u','l','o','n','g'], ['g','s','i','z','e'], ['g','u','i','n','t','p','t','r'],
-   ['u','n','s','i','g','n','e','d',' ','l','o','n','g',' ','l','o','n','g']]
+  [['g','u','l','o','n','g'], ['g','s','i','z','e'], ['g','u','i','n','t','p','t','r']]
 
 def unsignedWidth (f : Str) : Option Nat := (unsignedWidths.find? (fun p => p.1 = f)).map (·.2)
 
-/-- the C type name `t` denotes the fundamental type `f`, directly or through typedefs of the
-    namespace (any depth); type names carry no pointer stars -/
+/-- the C type name `t` denotes the fundamental type `f`: it is a key of `ast.type_names` (and
+    no node of the namespace goes by that name), or it names a typedef of the namespace and a
+    chain of typedefs of ANY length leads from it to such a key -/
 inductive ResolvesTo (idp : List Str) (nodes : List Node) : Str → Str → Prop where
   | direct {t f ct : Str} : lookupTypeName t = some (f, ct) → lookupNode idp nodes t = none →
       ResolvesTo idp nodes t f
-  | viaAlias {t n c target f : Str} : lookupTypeName t = none →
-      lookupNode idp nodes t = some (.alias n c target) → ResolvesTo idp nodes target f →
-      ResolvesTo idp nodes t f
+  | viaAlias {t f : Str} {p : List Node} : ChainTo idp nodes t f p → ResolvesTo idp nodes t f
 
-/-- … through at most one typedef (what `_create_const` can see while parsing) -/
-inductive ResolvesTo1 (idp : List Str) (nodes : List Node) : Str → Str → Prop where
-  | direct {t f ct : Str} : lookupTypeName t = some (f, ct) → lookupNode idp nodes t = none →
-      ResolvesTo1 idp nodes t f
-  | viaAlias {t n c target f ct : Str} :
-      lookupNode idp nodes t = some (.alias n c target) → lookupTypeName target = some (f, ct) →
-      ResolvesTo1 idp nodes t f
-
-theorem constUnaliased_of_resolves1 {idp : List Str} {nodes : List Node} {t f : Str}
-    (h : ResolvesTo1 idp nodes t f) : constUnaliased idp nodes t = some f := by
+theorem constUnaliased_of_resolves {idp : List Str} {nodes : List Node} {t f : Str}
+    (h : ResolvesTo idp nodes t f) : constUnaliased idp nodes t = some f := by
   cases h with
   | direct h1 h2 => exact constUnaliased_direct h1 h2
-  | viaAlias h1 h2 => exact constUnaliased_alias h1 h2
+  | viaAlias h1 => exact constUnaliased_of_chain h1
 
 theorem unsignedWidth_mem {f : Str} {w : Nat} (h : unsignedWidth f = some w) : (f, w) ∈ unsignedWidths := by
   unfold unsignedWidth at h
